@@ -97,6 +97,12 @@ class align_tokens_in_region_between_tokens(alignment.Rule):
             if rules_utils.number_of_carriage_returns(lTokens) == 0:
                 continue
 
+            # The violations are created against whole lines, account for the tokens on the first line which precede the region
+            iLineStart = 0 if iLine <= 1 else oFile.oTokenMap.get_index_of_line(iLine)
+            for oLeadToken in oFile.lAllObjects[iLineStart : oToi.get_start_index()]:
+                iToken += 1
+                iColumn += alignment_utils.update_column_width(self, oLeadToken)
+
             while iIndex < len(lTokens):
                 iToken += 1
                 oToken = lTokens[iIndex]
